@@ -33,7 +33,7 @@ RULE = ("histories of 1-3 instances on 1-2 interfaces: announcements (one packet
         "two live records of one name and type coexist, then optionally the older record announced again, then a new "
         "address); TTLs 1 s .. 4500 s; timer-exact runs (run_until) and late wake-ups; horizons up to 4700 s; "
         "non-trivial = the daemon emitted at least one event or follow-up question; distinct = distinct history lines")
-TRUSTED = bc.TRUSTED_COMMON
+TRUSTED = bc.TRUSTED_COMMON  # model follows /repo fixes up to 48ec5c0 (follow-ups only while a PTR points to the instance)
 PARTIAL = ("The clause 'last advertised' (chk_C03_last) is NOT a theorem over histories: outside the class known_reannounced "
            "it is checked by the monitor on model and implementation for every generated history (a proof needs, beyond "
            "the C03 invariant, completeness of the cache - every current for-us delivery is stored - bucket order = order "
